@@ -2,15 +2,18 @@
 # usage: tools/confirm_mutant.sh <worktree> <crate> <demo-test-name>
 # Confirms in the scratch worktree: (1) existing tests of the crate pass with the change,
 # (2) the demo fails with the change, (3) the demo passes without it.
+# (No `git stash`: the stash stack is shared between all worktrees of a repository.)
 wt="$1"; crate="$2"; demo="$3"
 cd "$wt" || exit 2
 export CARGO_NET_OFFLINE=true
-echo "== existing tests with the change (lib + doc, demo excluded)"
+p=$(mktemp /tmp/confirm.XXXXXX.patch)
+git diff -- . ':!MUTANT_PATCH.diff' > "$p"
+echo "== existing tests with the change (lib, demo excluded)"
 cargo test -p "$crate" --offline --lib 2>&1 | grep -E "^test result|FAILED|^error" | head -3
 echo "== demo with the change (expected: FAIL)"
 cargo test -p "$crate" --offline --test "$demo" 2>&1 | grep -E "^test result|^error" | head -2
-git stash -q
+git apply -R "$p"
 echo "== demo without the change (expected: ok)"
 cargo test -p "$crate" --offline --test "$demo" 2>&1 | grep -E "^test result|^error" | head -2
-git stash pop -q
+git apply "$p"; rm -f "$p"
 git status --short | head -5
